@@ -3,6 +3,8 @@
 # ./run.sh replay <file>             re-execute a recorded violation without the explorer
 # ./run.sh build                     build only
 set -u
+ARG2="${2:-}"
+if [ "${1:-}" = replay ] && [ -n "$ARG2" ]; then ARG2="$(readlink -f "$ARG2")"; fi
 cd "$(dirname "$0")/mc" || exit 2
 export CARGO_NET_OFFLINE=true
 build() {
@@ -17,6 +19,6 @@ build() {
 build
 case "${1:-}" in
   build) exit 0 ;;
-  replay) exec /verif/target/release/mc replay "$2" ;;
+  replay) exec /verif/target/release/mc replay "$ARG2" ;;
   *) exec /verif/target/release/mc "$1" "${2:-${VERIF_TIER:-quick}}" ;;
 esac
